@@ -225,6 +225,84 @@ fn scenario(p: &TxwParams, faults: bool, rep: &Report) -> Result<(), String> {
         }
     }
 
+    // ---- (a2) clients that end a transaction in an unusual way and then stay connected, idle:
+    // their server connection must be back in the pool (nothing marked in use, full capacity)
+    if p.mode == "transaction" {
+        // (in session mode an idle client legitimately keeps its server)
+        let mut rng = Rng::new(p.seed ^ 0x1D1E);
+        let endings = ["simple_ok", "simple_error_pre", "simple_error_mid", "copy_out_error_mid", "copy_out_ok", "copy_in_fail", "copy_in_ok", "batch_parse_error", "block_commit", "block_error_rollback"];
+        let k = rng.range(1, 4) as usize;
+        let mut idlers = vec![];
+        for i in 0..k {
+            let id = format!("idler{}", i);
+            let mut c = match Conn::connect(&cell.addr(), &StartupOpts::new(USER, "db", PASS).app(&id)) {
+                Ok(c) => c,
+                Err(e) => return Err(format!("idler connect: {}", e)),
+            };
+            let ending = *rng.pick(&endings);
+            rep.set_add("idle_after_ending", ending);
+            let q = |n: u32| format!("{}.q{}", id, n);
+            let run = |c: &mut Conn, sql: String| c.query(&sql, 10_000).map(|_| ()).map_err(|(m, e)| format!("{:?} {}", e, summarize(&m)));
+            let r: Result<(), String> = match ending {
+                "simple_ok" => run(&mut c, format!("SELECT 1 {}", tag(&id, &q(1), "rows=2"))),
+                "simple_error_pre" => run(&mut c, format!("SELECT 1 {}", tag(&id, &q(1), "err=pre"))),
+                "simple_error_mid" => run(&mut c, format!("SELECT 1 {}", tag(&id, &q(1), "rows=6 err=mid"))),
+                "copy_out_error_mid" => run(&mut c, format!("COPY t TO STDOUT {}", tag(&id, &q(1), "rows=6 err=mid"))),
+                "copy_out_ok" => run(&mut c, format!("COPY t TO STDOUT {}", tag(&id, &q(1), "rows=3"))),
+                "copy_in_fail" | "copy_in_ok" => {
+                    let st = crate::wl::Step { qid: q(1), kind: crate::wl::StepKind::CopyIn { chunks: vec![b"1\n".to_vec()], fail: ending == "copy_in_fail" }, bytes: crate::proto::query(&format!("COPY t FROM STDIN {}", tag(&id, &q(1), ""))), what: "copy_in".into(), readies: 1, cuts: vec![] };
+                    let r = crate::wl::run_step(&mut c, &st, 10_000);
+                    if matches!(r.outcome, Outcome::Ok) { Ok(()) } else { Err(format!("{:?}", r.outcome)) }
+                }
+                "batch_parse_error" => {
+                    let mut b = crate::proto::parse("", &format!("SELECT 1 {}", tag(&id, &q(1), "perr")), &[]);
+                    b.extend(crate::proto::bind("", "", &[], &[], &[]));
+                    b.extend(crate::proto::execute("", 0));
+                    b.extend(crate::proto::sync());
+                    c.send(&b).map_err(|e| e.to_string()).and_then(|_| c.read_until_ready(10_000).map(|_| ()).map_err(|(m, e)| format!("{:?} {}", e, summarize(&m))))
+                }
+                "block_commit" => run(&mut c, format!("BEGIN {}", tag(&id, &q(1), ""))).and_then(|_| run(&mut c, format!("COMMIT {}", tag(&id, &q(2), "")))),
+                _ => run(&mut c, format!("BEGIN {}", tag(&id, &q(1), "")))
+                    .and_then(|_| run(&mut c, format!("SELECT 1 {}", tag(&id, &q(2), "err=pre"))))
+                    .and_then(|_| run(&mut c, format!("ROLLBACK {}", tag(&id, &q(3), "")))),
+            };
+            if let Err(e) = r {
+                return Err(format!("idler {} ({}): {}", id, ending, e));
+            }
+            idlers.push((c, ending));
+        }
+        sleep_ms(120);
+        let mut endings_now: Vec<&str> = idlers.iter().map(|x| x.1).collect();
+        endings_now.sort();
+        endings_now.dedup();
+        let mut adm = cell.pg().admin().map_err(|e| format!("admin: {}", e))?;
+        for r in admin_rows(&mut adm, "SHOW POOLS")? {
+            if r.get("database").map(|s| s.as_str()) == Some("db") {
+                let sv_active: i64 = r.get("sv_active").and_then(|v| v.parse().ok()).unwrap_or(-1);
+                if sv_active != 0 {
+                    rep.violation(
+                        &format!("C04|server_marked_in_use_while_all_clients_idle|mode={}|after={}", p.mode, endings_now.join("+")),
+                        &format!("SHOW POOLS sv_active={} while every connected client is idle between transactions (their last transactions ended by: {:?}); {}", sv_active, endings_now, p.describe()),
+                        json!({"row": r, "params": p.describe(), "seed": p.seed}),
+                    );
+                }
+            }
+        }
+        if p.mode == "transaction" {
+            match capacity_probe(&cell, p.pool_size, &p.mode, p.connect_timeout_ms * 10 + 3000) {
+                Ok(()) => rep.count("capacity_probes_with_idle_clients_passed", 1),
+                Err(e) => rep.violation(
+                    &format!("C04|capacity_held_by_idle_client|after={}", endings_now.join("+")),
+                    &format!("with clients connected but idle between transactions (last transactions ended by {:?}) pool_size simultaneous transactions were not all served: {}; {}", endings_now, e, p.describe()),
+                    json!({"params": p.describe(), "seed": p.seed, "pgcat_log_tail": cell.pg().log_tail(10)}),
+                ),
+            }
+        }
+        for (c, _) in idlers {
+            c.terminate();
+        }
+    }
+
     // ---- (b) quiescence
     sleep_ms(250);
     let mut adm = cell.pg().admin().map_err(|e| format!("admin: {}", e))?;
@@ -312,6 +390,7 @@ pub fn run(tier: &str) -> i32 {
                     gen,
                     replicas: 0,
                     stagger_ms: 0,
+                    hc_stall: false,
                 },
                 i % 3 == 1,
             )
